@@ -85,19 +85,19 @@ func c11ConverterShape(c *Ctx, br *callBridge) {
 }
 
 type callBridge struct {
-	H       *ssa.Function
-	D       *Dispatcher
-	Node    *ssa.Parameter
-	Call    *ssa.Call // reflect.Value.Call
-	FunEval *ssa.Call // evaluation of the callee expression
-	FunType ssa.Value // reflect.TypeOf(fun)
-	VarFlag ssa.Value // the variadic flag (bool)
-	CtxFlag ssa.Value // the context flag call (bool)
-	Conv    *ssa.Call // per-argument conversion call
-	Expand  *ssa.Call // spread expansion call (or, written out in the handler, the element read of its loop)
+	H             *ssa.Function
+	D             *Dispatcher
+	Node          *ssa.Parameter
+	Call          *ssa.Call // reflect.Value.Call
+	FunEval       *ssa.Call // evaluation of the callee expression
+	FunType       ssa.Value // reflect.TypeOf(fun)
+	VarFlag       ssa.Value // the variadic flag (bool)
+	CtxFlag       ssa.Value // the context flag call (bool)
+	Conv          *ssa.Call // per-argument conversion call
+	Expand        *ssa.Call // spread expansion call (or, written out in the handler, the element read of its loop)
 	ExpandInline  bool
 	ExpandSubject ssa.Value // what is expanded
-	ArgsLen []ssa.Value
+	ArgsLen       []ssa.Value
 }
 
 func c11Bridge(c *Ctx, h *ssa.Function, d *Dispatcher) *callBridge {
